@@ -14,7 +14,7 @@ attributes as lists of `[key, value]` pairs).
   reset                -> `ok`
   mgr-reset <ev>       -> `ok`                  (registry emptied, engine version set)
   mgr-handler <id> <fp> <content> -> `ok`
-  mgr add <alias> <version> <objs id> <handler id> <T|F> | mgr get <alias> | mgr remove <alias> | mgr list
+  mgr add s<alias hex> <version> <objs id> <handler id> <T|F> | mgr get s<alias hex> | mgr remove s<alias hex> | mgr list
                        -> `<result> | <aliases> | <default> | <fp and content of every handler set so far>`
   anything else        -> `bad-op` -/
 open Eos Eos.Codec Eos.Codec.PV Eos.Loader Eos.SourceMgr
@@ -176,6 +176,12 @@ def parseOptS (t : String) : Option (Option String) :=
   | 's' :: cs => (unhex (String.ofList cs)).map some
   | _ => none
 
+/-- `s<hex>` (so that the empty alias is still a token). -/
+def alias? (t : String) : Option String :=
+  match t.toList with
+  | 's' :: cs => unhex (String.ofList cs)
+  | _ => none
+
 def showRes : Res → String
   | .added b => if b then "added-rebuilt" else "added-cached"
   | .existingSourceError => "ExistingSourceError"
@@ -224,11 +230,11 @@ def stepCache (s : DS) (line : String) : DS × List String :=
                 known := if s.known.contains i then s.known else s.known ++ [i] }, ["ok"])
     | _, _, _ => (s, ["bad-op"])
   | ["mgr", "add", a, v, o, c, mk] =>
-    match unhex a, parseOptS v, o.toNat?, c.toNat?, (if mk == "T" then some true else if mk == "F" then some false else none) with
+    match alias? a, parseOptS v, o.toNat?, c.toNat?, (if mk == "T" then some true else if mk == "F" then some false else none) with
     | some a, some v, some o, some c, some mk => mgrOp s (.add a v o c mk)
     | _, _, _, _, _ => (s, ["bad-op"])
-  | ["mgr", "get", a] => match unhex a with | some a => mgrOp s (.get a) | none => (s, ["bad-op"])
-  | ["mgr", "remove", a] => match unhex a with | some a => mgrOp s (.remove a) | none => (s, ["bad-op"])
+  | ["mgr", "get", a] => match alias? a with | some a => mgrOp s (.get a) | none => (s, ["bad-op"])
+  | ["mgr", "remove", a] => match alias? a with | some a => mgrOp s (.remove a) | none => (s, ["bad-op"])
   | ["mgr", "list"] => mgrOp s .list
   | _ => (s, ["bad-op"])
 
